@@ -407,12 +407,14 @@ func decLateSweep(c *corr.Ctx) {
 // decEnum: small-scope enumeration — every sequence of `length` packets over two tracks and the
 // timestamps at the wrap / sign boundaries (all interleavings, all step signs, refusals included).
 func decEnum(c *corr.Ctx) {
-	tss := []uint32{0, 1<<31 - 1, 1 << 31, 1<<32 - 1}
-	length := 4
+	decEnumWith(c, []uint32{0, 1<<31 - 1, 1 << 31, 1<<32 - 1}, c.N(4, 5))
 	if !c.Quick() {
-		tss = []uint32{0, 1, 1<<31 - 1, 1 << 31, 1<<31 + 1, 1<<32 - 1}
-		length = 5
+		decEnumWith(c, []uint32{0, 1, 1<<31 - 1, 1 << 31, 1<<31 + 1, 1<<32 - 1}, 4)
 	}
+	c.Dist("dec:enumerated-small-scope")
+}
+
+func decEnumWith(c *corr.Ctx, tss []uint32, length int) {
 	type choice struct {
 		track int
 		ts    uint32
@@ -454,7 +456,6 @@ func decEnum(c *corr.Ctx) {
 			}
 			h.Ops = append(h.Ops, op)
 		}
-		decRun(c, h, fmt.Sprintf("dec-enum-%d", code))
+		decRun(c, h, fmt.Sprintf("dec-enum-%d-%d-%d", len(tss), length, code))
 	}
-	c.Dist("dec:enumerated-small-scope")
 }
